@@ -583,6 +583,7 @@ func (ex *Exec) verifyFunction(fn *ssa.Function) (rep *FuncReport) {
 
 	// run
 	fr := &Frame{fn: fn, vals: map[ssa.Value]Value{}, args: args, bindings: bindings, loops: map[*ssa.BasicBlock]*loopCtx{}, top: true, ghostPar: fr0.ghostPar, callStack: []string{key}}
+	ex.topFr = fr
 	ex.tryPath(func() {
 		ex.execBlock(fr, fn.Blocks[0], st, func(st *State, res Value) {
 			ex.atReturn(fr, c, st, res)
